@@ -103,6 +103,17 @@ class Evaluator:
             r_ = _pat._resolve_const(t)            # a module-level number constant is that number
             if r_[0] == 'c':
                 return r_[1]
+            if _pat.MODEL is not None:
+                # a module-level table bound once to a literal (dict / tuple / set / list of literals) is that table
+                lk = _pat.MODEL.lookup(t)
+                if lk and lk[0] == 'const' and not _pat.MODEL.reassigned(t[1], t[2]):
+                    import ast as _ast
+                    try:
+                        lit = _ast.literal_eval(lk[1])
+                    except (ValueError, TypeError, SyntaxError, MemoryError, RecursionError):
+                        lit = None
+                    if isinstance(lit, (dict, tuple, frozenset, set, list)):
+                        return tuple(lit) if isinstance(lit, list) else lit
             return s.leaf(t)
         if k in ('p', 'lp', 'loopvar', 'elem', 'self'):
             return s.leaf(t)
@@ -181,6 +192,17 @@ class Evaluator:
                         raise NotEvaluable(exc)
                 if recv is None or isinstance(recv, (int, float, bytes)):
                     raise NotEvaluable('%s of %r' % (name, recv))
+            if t[1][0] == 'attr' and name == 'get' and not t[3] and 1 <= len(t[2]) <= 2 and t[1][1][0] == 'g':
+                # lookup in a module-level literal table
+                try:
+                    recv = s.ev(t[1][1])
+                except NotEvaluable:
+                    recv = None
+                if isinstance(recv, dict):
+                    try:
+                        return recv.get(*[s.ev(a) for a in t[2]])
+                    except TypeError as exc:
+                        raise NotEvaluable(exc)
             if name == 'isinstance' and len(t[2]) == 2 and t[1] == ('b', 'isinstance'):
                 TYPES = {'int': int, 'float': float, 'slice': slice, 'str': str, 'bytes': bytes, 'bool': bool}
                 tt = t[2][1]
